@@ -66,6 +66,8 @@ type Exec struct {
 	loopRoots map[*ssa.BasicBlock]map[string][]ssa.Value
 	opaque    map[string]*opaqueInfo
 	bindFail  map[string]bool
+	snap      map[string]*Loc // snapshot backing arrays of embedded arrays -> where they live
+	guardsSeen map[string]bool
 }
 
 type Frame struct {
@@ -93,6 +95,13 @@ type Frame struct {
 	defers   []*ssa.Defer
 	loopOrd  map[*ssa.BasicBlock]int
 	storeRoot ssa.Value
+	parent    *Frame
+	locals    []localAlloc
+}
+
+type localAlloc struct {
+	ref string
+	t   types.Type
 }
 
 type retInfo struct {
@@ -160,6 +169,34 @@ func (fr *Frame) havocAll(why string) {
 	na := x.heapGet(n, "$alloc", "Int")
 	x.em.Assert(sLe(oa, na))
 	fr.cur = n
+	// locals whose address never escapes (ssa.Alloc with Heap == false) are out of reach of
+	// any callee: their cells keep their values
+	for f := fr; f != nil; f = f.parent {
+		for _, la := range f.locals {
+			loc := &Loc{Kind: LRef, Base: la.ref, Root: la.t, T: la.t}
+			func() {
+				defer func() {
+					if r := recover(); r != nil {
+						if _, ok := r.(Unsupported); !ok {
+							panic(r)
+						}
+					}
+				}()
+				for _, lf := range leavesOf(la.t) {
+					name, inner := loc.heapFor(lf.Path)
+					if len(inner) > 0 {
+						continue
+					}
+					hs := heapSort(LRef, lf.Sort)
+					if _, known := old.m[name]; !known {
+						continue
+					}
+					nh := x.heapGet(n, name, hs)
+					n.m[name] = x.em.Def(name, hs, sStore(nh, la.ref, sSelect(old.m[name], la.ref)))
+				}
+			}()
+		}
+	}
 	if x.discover {
 		for _, l := range x.curLoops {
 			x.loopMods[l]["*"] = true
@@ -244,6 +281,9 @@ func (fr *Frame) readLocIn(h *HeapState, loc *Loc) *SVal {
 func (fr *Frame) readLoc(loc *Loc) *SVal {
 	v := fr.readLocIn(fr.cur, loc)
 	fr.assumeRanges(v)
+	// a well-formed heap holds no dangling future references: everything loaded was
+	// allocated before now
+	fr.assumeAllocated(v, fr.x.heapGet(fr.cur, allocName, "Int"))
 	return v
 }
 
